@@ -484,6 +484,146 @@ fn fam_files(ctx: &CaseCtx, cov: &mut Cov) -> CaseOut {
     out
 }
 
+/// Files with very many blocks; faults in index records far from the start,
+/// single and SUM-PRESERVING (compensating +k/-k on two records, two records
+/// swapped, all records rotated): a checker that aggregates or samples the
+/// per-block comparison would let these through.
+fn fam_many_blocks_index(ctx: &CaseCtx, cov: &mut Cov) -> CaseOut {
+    let mut out = CaseOut::default();
+    let mut rng = ctx.rng();
+    let nb: usize = match ctx.index % 8 {
+        0 => 4_097 + rng.below(40) as usize,
+        1 => 258 + rng.below(100) as usize,
+        2 => 4_096,
+        7 if ctx.tier == Tier::Thorough => 65_537 + rng.below(500) as usize,
+        _ => 1_000 + rng.below(7_000) as usize,
+    };
+    let check = *rng.pick(&[1u8, 4, 0]);
+    let mut pool = Vec::new();
+    for _ in 0..40 {
+        let (data, plain, _) = crate::gen::xzgen::gen_payload(&mut rng, true);
+        if plain.len() <= 48 {
+            pool.push((data, plain));
+        }
+    }
+    if pool.len() < 2 {
+        pool.push((vec![0u8], vec![]));
+        pool.push((vec![1, 0, 0, 0x41, 0], vec![0x41]));
+    }
+    let mut blocks = Vec::with_capacity(nb);
+    for _ in 0..nb {
+        let (data, plain) = pool[rng.usize_below(pool.len())].clone();
+        let bo = xz::BlockOpts { with_packed: rng.chance(1, 2), with_unpacked: rng.chance(1, 2), extra_header_words: 0, dict_prop: 0 };
+        blocks.push(xz::BlockSpec::new(data, plain, check, &bo));
+    }
+    let spec = XzSpec::new(check, blocks);
+    let (file, _) = spec.serialize();
+    let plain = spec.plain();
+    let desc = format!("{} blocks, check {}", nb, check);
+    let (v0, o0) = run_xz(&file);
+    if !(v0.is_ok() && o0 == plain) {
+        out.harness_error(format!("base file not decoded correctly ({}); that is C03's business [{}]", v0.short(), desc));
+        return out;
+    }
+    cov.max("many_blocks.blocks_in_base_file", nb as u64);
+    let mut ords: Vec<usize> = vec![0, 1, 2, nb / 2, 255, 256, 257, 4095, 4096, 4097, 65_535, 65_536, 65_537, nb - 2, nb - 1];
+    for _ in 0..4 {
+        ords.push(rng.usize_below(nb));
+    }
+    ords.retain(|&o| o < nb);
+    ords.sort_unstable();
+    ords.dedup();
+    let mut mutants: Vec<(String, XzSpec)> = Vec::new();
+    let get = |s: &XzSpec, o: usize, f: usize| if f == 0 { s.index_records[o].0 } else { s.index_records[o].1 };
+    let set = |s: &mut XzSpec, o: usize, f: usize, v: u64| {
+        if f == 0 {
+            s.index_records[o].0 = v
+        } else {
+            s.index_records[o].1 = v
+        }
+    };
+    let fname = ["unpadded size", "uncompressed size"];
+    for &o in &ords {
+        for f in 0..2 {
+            let v = get(&spec, o, f);
+            for nv in [v + 1, v.wrapping_sub(1), v + 4, v * 2 + 1] {
+                if nv == v || nv > (1 << 62) || (f == 0 && nv < 5) {
+                    continue;
+                }
+                let mut s = spec.clone();
+                set(&mut s, o, f, nv);
+                mutants.push((format!("record {} {} {} -> {}", o, fname[f], v, nv), s));
+            }
+        }
+    }
+    let n_pairs = ctx.tier.pick(60, 300);
+    for _ in 0..n_pairs {
+        let (i, j) = (ords[rng.usize_below(ords.len())], ords[rng.usize_below(ords.len())]);
+        if i == j {
+            continue;
+        }
+        let f = rng.usize_below(2);
+        match rng.below(3) {
+            0 => {
+                let k = *rng.pick(&[1u64, 4, 8]);
+                let (a, b) = (get(&spec, i, f), get(&spec, j, f));
+                if b <= k + 5 {
+                    continue;
+                }
+                let mut s = spec.clone();
+                set(&mut s, i, f, a + k);
+                set(&mut s, j, f, b - k);
+                mutants.push((format!("records {} and {}: {} +{} / -{} (sum unchanged)", i, j, fname[f], k, k), s));
+            }
+            1 => {
+                if spec.index_records[i] == spec.index_records[j] {
+                    continue;
+                }
+                let mut s = spec.clone();
+                s.index_records.swap(i, j);
+                mutants.push((format!("records {} and {} swapped", i, j), s));
+            }
+            _ => {
+                let mut s = spec.clone();
+                s.index_records.rotate_left(1 + rng.usize_below(3));
+                if s.index_records == spec.index_records {
+                    continue;
+                }
+                mutants.push(("all records rotated".to_string(), s));
+            }
+        }
+    }
+    for (what, m) in mutants {
+        let (bytes, _) = m.serialize();
+        if bytes == file {
+            continue;
+        }
+        if let XzVerdict::Ok(_) = xz::parse_strict(&bytes) {
+            cov.name("field_mutants_skipped.still_valid", 1);
+            continue;
+        }
+        let (v, o) = run_xz(&bytes);
+        out.evals += 1;
+        cov.name("field.index_record_in_many_block_file", 1);
+        out.nontrivial.push(case_hash(&[what.as_bytes(), &(nb as u64).to_le_bytes(), &bytes[bytes.len().saturating_sub(64)..]]));
+        match &v {
+            Verdict::Err(_) => {}
+            Verdict::Ok => out.violate(
+                "C06/index_record(many blocks)/accepted".to_string(),
+                format!("{} (index CRC32 recomputed): accepted ({} output bytes, original {}) [base: {}]", what, o.len(), plain.len(), desc),
+                J::obj().set("input_hex", J::s(crate::util::hex_trunc(&bytes, 4096))).set("base_file", J::s(desc.as_str())).set("mutation", J::s(what.as_str())),
+            ),
+            other => out.violate(
+                format!("C06/index_record(many blocks)/{}", verdict_sig(other)),
+                format!("{}: {} [base: {}]", what, other.short(), desc),
+                J::obj().set("input_hex", J::s(crate::util::hex_trunc(&bytes, 4096))).set("mutation", J::s(what.as_str())),
+            ),
+        }
+    }
+    out.sample = Some(J::obj().set("base_file", J::s(desc)));
+    out
+}
+
 fn label(group: &str, i: u32) -> String {
     match group {
         "base.check" => match i { 0 => "None".into(), 1 => "CRC32".into(), 4 => "CRC64".into(), x => x.to_string() },
@@ -522,7 +662,9 @@ pub fn monitor(tier: Tier) -> Monitor {
             "check None gives no protection for payload bytes: only structural fields are asserted there".into(),
             "a payload bit flip that leaves the decoded bytes identical (e.g. the ignored first range-coder byte) is not a violation".into(),
         ],
-        families: vec![Family { name: "files", count: tier.pick(1200, 40_000), priority: false, enumerated: false, run: fam_files }],
+        families: vec![Family { name: "files", count: tier.pick(1200, 40_000), priority: false, enumerated: false, run: fam_files },
+            Family { name: "many_blocks_index", count: tier.pick(3, 32), priority: false, enumerated: false, run: fam_many_blocks_index },
+        ],
         label,
         floors,
         summarize: no_summary,
